@@ -885,3 +885,68 @@ def run(ctx, rep):
                    "config = dict(self.protocol_config, ...)" if fresh else
                    "the server's protocol_config object itself is handed to every connection", ctx.loc(c))
     K.share(ctx, rep, "c02", lambda o: o.rule in ("R02.1", "R02.2") and "through the policy" in o.key, "R06.8", floor=2)
+    _config_model(ctx, rep)
+
+
+def _config_model(ctx, rep):
+    """R06.9: Connection.__init__ evaluated (sa/miniinterp.py) on caller configurations: the connection's configuration is the
+    library defaults overridden by exactly what the caller passed - values that are None / False / 0 included (a caller passing
+    sync_request_timeout=None asks for no limit, allow_pickle=False asks for a denial)."""
+    from .. import miniinterp as MI
+    import itertools as _it
+    rep.rule("R06.9", "the connection's configuration is the defaults overridden by exactly what the caller passed (falsy values and "
+                      "None included); neither the caller's dictionary nor the defaults are modified")
+    fi = ctx.func(K.CONN + ".__init__")
+    rep.analysed(fi)
+    defaults = ctx.const(K.PROTO, "DEFAULT_CONFIG")
+
+    class _Opaque:
+        mi_native = True
+
+        def __init__(self, what):
+            self.what = what
+    mk = lambda what: (lambda *a, **k: _Opaque(what))
+    bad = []
+    rows = 0
+    try:
+        for given in ({}, {"sync_request_timeout": None, "allow_pickle": True, "connid": "mine", "allow_setattr": False,
+                           "logger": None, "private_key_of_the_application": 0, "exposed_prefix": ""},
+                      {"allow_all_attrs": True, "sync_request_timeout": 0}):
+            rows += 1
+            dflt = dict(defaults)
+            passed = dict(given)
+            gen = _it.count(1)
+            hooks = {"self._request_handlers": lambda: {}, "itertools.count": mk("count"), "Lock": mk("Lock"), "RLock": mk("RLock"),
+                     "Condition": mk("Condition"), "RefCountingColl": mk("RefCountingColl"), "WeakValueDict": mk("WeakValueDict"),
+                     "count": mk("count")}
+            glob = {"DEFAULT_CONFIG": dflt, "_connection_id_generator": gen}
+            extra = {"__calls__": hooks, "__globals__": glob, "__max_iter__": 500,
+                     "__methods__": {n: m.node for n, m in ctx.cls(K.CONN).methods.items() if n not in ("__init__", "_request_handlers")}}
+            st = {}
+            MI.call_method(fi.node, st, ["ROOT", "CHANNEL", passed], extra)
+            cfg = st.get("_config")
+            want = dict(defaults)
+            want.update(given)
+            if want.get("connid") is None:
+                want["connid"] = cfg.get("connid") if isinstance(cfg, dict) and isinstance(cfg.get("connid"), str) else "<a generated id>"
+            if not isinstance(cfg, dict):
+                bad.append("config %r: self._config is %r" % (given, cfg))
+                continue
+            diff = sorted(k for k in set(want) | set(cfg) if want.get(k, "<absent>") != cfg.get(k, "<absent>"))
+            if diff:
+                bad.append("caller passes %r: the connection ends up with %s" % (
+                    given, ", ".join("%s=%r (expected %r)" % (k, cfg.get(k, "<absent>"), want.get(k, "<absent>")) for k in diff[:4])))
+            if passed != given:
+                bad.append("the caller's dictionary is modified (%r -> %r)" % (given, passed))
+            if dflt != defaults:
+                bad.append("DEFAULT_CONFIG is modified by constructing a connection")
+            if cfg is dflt or cfg is passed:
+                bad.append("the connection shares its configuration object with %s" % ("the defaults" if cfg is dflt else "the caller"))
+    except MI.Raised as r_:
+        bad.append("Connection.__init__ raises %s on a plain configuration" % r_.name)
+    except AnalysisError as e_:
+        rep.undecided("R06.9", "Connection.__init__ model", str(e_))
+        return
+    rep.ob("R06.9", "Connection.__init__: configuration = defaults overridden by the caller's dictionary, value for value", not bad,
+           "%d caller configurations, incl. None / False / 0 / '' values and unknown keys" % rows if not bad else "; ".join(bad[:2]),
+           fi.loc, kind="table")
